@@ -56,6 +56,29 @@ class Context:
 CTX = Context()
 
 
+def known_truth(t):
+    """True / False if the condition (or its negation) is literally among the
+    facts or the current path condition; None otherwise."""
+    if t is T.TRUE:
+        return True
+    if t is T.FALSE:
+        return False
+    n = T.bnot(t)
+    for f in CTX.facts:
+        if f is t:
+            return True
+        if f is n:
+            return False
+    ex = CTX.explorer
+    if ex is not None:
+        for f in ex.pc:
+            if f is t:
+                return True
+            if f is n:
+                return False
+    return None
+
+
 def new_context():
     global CTX
     CTX = Context()
@@ -74,12 +97,23 @@ PI = math.pi
 class AngleLeaf:
     """theta = D * phi ; (c, s) = (cos phi, sin phi) as Terms."""
 
-    def __init__(self, name, D, c, s):
+    def __init__(self, name, D, c, s, halver=None):
         self.name = name
         self.D = D
         self.c = c
         self.s = s
         self._multi = {0: (T.ONE, T.ZERO), 1: (c, s)}
+        self.halver = halver  # () -> (cos, sin) of theta/(2D), for derived angles
+        self._half = None
+
+    def half(self):
+        """leaf for the same angle with denominator 2D"""
+        if self._half is None:
+            if self.halver is None:
+                raise OutOfEncoding("half of angle %s is not available" % self.name)
+            c, s = self.halver()
+            self._half = AngleLeaf(self.name + "/2", self.D * 2, c, s)
+        return self._half
 
     def multiple(self, n):
         """(cos(n phi), sin(n phi))"""
@@ -129,6 +163,9 @@ class AngleForm:
         c, s = T.ONE, T.ZERO
         for leaf, coef in self.lin.items():
             n = coef * leaf.D
+            if n.denominator == 2 and leaf.halver is not None:
+                leaf = leaf.half()
+                n = coef * leaf.D
             if n.denominator != 1:
                 raise OutOfEncoding(
                     "angle %s used with coefficient %s but declared with denominator %d"
@@ -175,9 +212,9 @@ def angle(name, D=2, lo=None, hi=None):
     return r
 
 
-def derived_angle(name, c, s, D=1):
+def derived_angle(name, c, s, D=1, halver=None):
     """An angle known only through (cos, sin) of theta/D."""
-    leaf = AngleLeaf(name, D, c, s)
+    leaf = AngleLeaf(name, D, c, s, halver)
     CTX.leaves[name] = leaf
     return SymReal(T.var("ang_" + name), AngleForm({leaf: Fraction(1)}))
 
@@ -250,6 +287,9 @@ class SymBool:
             return True
         if t is T.FALSE:
             return False
+        k = known_truth(t)
+        if k is not None:
+            return k
         ex = CTX.explorer
         if ex is None:
             raise Concretization("truth value of symbolic condition %r outside an Explorer" % (t,))
@@ -498,6 +538,8 @@ class SymReal:
         return (self * b.log()).exp()
 
     def __abs__(self):
+        if known_truth(T.gt(self.t, T.ZERO)) or known_truth(T.ge(self.t, T.ZERO)):
+            return self
         return SymReal(T.absv(self.t))
 
     # -- comparisons
@@ -543,7 +585,10 @@ class SymReal:
                 raise OutOfEncoding("sqrt of negative constant (nan)")
             return SymReal(T.sqrt(self.t))
         CTX.need("sqrt", T.ge(self.t, T.ZERO))
-        return SymReal(T.sqrt(T.to_real(self.t)))
+        r = T.sqrt(T.to_real(self.t))
+        if r.op == "abs" and (known_truth(T.gt(r.args[0], T.ZERO)) or known_truth(T.ge(r.args[0], T.ZERO))):
+            r = r.args[0]
+        return SymReal(r)
 
     def square(self):
         return self * self
@@ -604,6 +649,10 @@ class SymReal:
             return SymReal(T.const(math.exp(float(self.t.args[0])), "R"))
         if self.t.op == "uf" and self.t.args[0] == "log":
             return SymReal(self.t.args[1])
+        k, _base = T._split_coef(self.t)
+        if k < 0:
+            # exp(-x) = 1 / exp(x): one uninterpreted value per |argument|
+            return 1 / (-self).exp()
         e = T.uf("exp", self.t)
         CTX.fact(T.gt(e, T.ZERO))
         return SymReal(e)
@@ -630,7 +679,13 @@ class SymReal:
         x = self.t
         CTX.need("acos", T.band(T.le(T.const(-1, "R"), x), T.le(x, T.ONE)))
         s = T.sqrt(T.sub(T.ONE, T.mul(x, x)))
-        return derived_angle(T.fresh("acos").args[0], x, s)
+        half = T.const(Fraction(1, 2), "R")
+
+        def halver():
+            # beta in [0, pi]: cos(beta/2), sin(beta/2) >= 0
+            return T.sqrt(T.mul(half, T.add(T.ONE, x))), T.sqrt(T.mul(half, T.sub(T.ONE, x)))
+
+        return derived_angle(T.fresh("acos").args[0], x, s, halver=halver)
 
     def arcsin(self):
         if self.t.op == "const":
@@ -651,7 +706,17 @@ class SymReal:
         zero = T.eq(r, T.ZERO)
         c = T.ite(zero, T.ONE, T.div(xt, r))
         s = T.ite(zero, T.ZERO, T.div(y, r))
-        return derived_angle(T.fresh("atan2").args[0], c, s)
+        half = T.const(Fraction(1, 2), "R")
+
+        def halver():
+            # phi in (-pi, pi]: cos(phi/2) >= 0 ; sin(phi/2) has the sign of sin(phi)
+            # (phi = pi: sin(phi) = 0, sin(phi/2) = 1)
+            ch = T.sqrt(T.mul(half, T.add(T.ONE, c)))
+            sh_mag = T.sqrt(T.mul(half, T.sub(T.ONE, c)))
+            sh = T.ite(T.ge(s, T.ZERO), sh_mag, T.neg(sh_mag))
+            return ch, sh
+
+        return derived_angle(T.fresh("atan2").args[0], c, s, halver=halver)
 
     def floor(self):
         return SymReal(T.floor(self.t))
@@ -675,11 +740,46 @@ class SymReal:
 
 
 class SymComplex:
-    __slots__ = ("re", "im")
+    """Complex scalar.  Either Cartesian (re, im) or *polar* mag * exp(i ph)
+    with ph an AngleForm: products and quotients of phases add / subtract
+    their angle forms exactly (e^{iA} e^{iB} = e^{i(A+B)}) and are expanded
+    to Cartesian form only when needed."""
+
+    __slots__ = ("_re", "_im", "mag", "ph")
 
     def __init__(self, re, im):
-        self.re = re if isinstance(re, SymReal) else _real_operand(re)
-        self.im = im if isinstance(im, SymReal) else _real_operand(im)
+        self._re = re if isinstance(re, SymReal) else _real_operand(re)
+        self._im = im if isinstance(im, SymReal) else _real_operand(im)
+        self.mag = None
+        self.ph = None
+
+    @classmethod
+    def polar(cls, mag, ph):
+        if not ph.lin and ph.k == 0:
+            return cls(mag, SymReal(T.ZERO))
+        z = cls.__new__(cls)
+        z._re = None
+        z._im = None
+        z.mag = mag
+        z.ph = ph
+        return z
+
+    def _expand(self):
+        c, s = self.ph.cos_sin()
+        self._re = self.mag * SymReal(c)
+        self._im = self.mag * SymReal(s)
+
+    @property
+    def re(self):
+        if self._re is None:
+            self._expand()
+        return self._re
+
+    @property
+    def im(self):
+        if self._im is None:
+            self._expand()
+        return self._im
 
     def __repr__(self):
         return "SymC(%r, %r)" % (self.re.t, self.im.t)
@@ -694,10 +794,15 @@ class SymComplex:
     def imag(self):
         return self.im
 
+    def _is_real(self):
+        return self.ph is None and self._im.t is T.ZERO
+
     def __complex__(self):
         return complex(float(self.re), float(self.im))
 
     def conjugate(self):
+        if self.ph is not None:
+            return SymComplex.polar(self.mag, self.ph.scaled(-1))
         return SymComplex(self.re, -self.im)
 
     conj = conjugate
@@ -722,6 +827,8 @@ class SymComplex:
     __radd__ = __add__
 
     def __neg__(self):
+        if self.ph is not None:
+            return SymComplex.polar(-self.mag, self.ph)
         return SymComplex(-self.re, -self.im)
 
     def __pos__(self):
@@ -743,6 +850,17 @@ class SymComplex:
         b = self._co(o)
         if b is None:
             return NotImplemented
+        if self.ph is not None:
+            if b.ph is not None:
+                return SymComplex.polar(self.mag * b.mag, self.ph.plus(b.ph))
+            if b._is_real():
+                return SymComplex.polar(self.mag * b._re, self.ph)
+        elif b.ph is not None and self._is_real():
+            return SymComplex.polar(self._re * b.mag, b.ph)
+        if self._is_real():
+            return SymComplex(self._re * b.re, self._re * b.im)
+        if b._is_real():
+            return SymComplex(self.re * b._re, self.im * b._re)
         return SymComplex(self.re * b.re - self.im * b.im, self.re * b.im + self.im * b.re)
 
     __rmul__ = __mul__
@@ -751,8 +869,15 @@ class SymComplex:
         b = self._co(o)
         if b is None:
             return NotImplemented
-        if b.im.t is T.ZERO:
-            return SymComplex(self.re / b.re, self.im / b.re)
+        if b.ph is not None:
+            if self.ph is not None:
+                return SymComplex.polar(self.mag / b.mag, self.ph.plus(b.ph.scaled(-1)))
+            if self._is_real():
+                return SymComplex.polar(self._re / b.mag, b.ph.scaled(-1))
+        if b._is_real():
+            if self.ph is not None:
+                return SymComplex.polar(self.mag / b._re, self.ph)
+            return SymComplex(self.re / b._re, self.im / b._re)
         d = b.re * b.re + b.im * b.im
         n = self * b.conjugate()
         return SymComplex(n.re / d, n.im / d)
@@ -781,6 +906,10 @@ class SymComplex:
         raise OutOfEncoding("complex power %r" % (o,))
 
     def __abs__(self):
+        if self.ph is not None:
+            return abs(self.mag)
+        if self._is_real():
+            return abs(self._re)
         return (self.re * self.re + self.im * self.im).sqrt()
 
     def absolute(self):
@@ -796,19 +925,24 @@ class SymComplex:
         return ~sbool(self == o)
 
     def exp(self):
-        c, s = self.im.cos_sin()
         m = self.re.exp()
+        if self.im.t.op != "const" and self.im.ang is not None:
+            return SymComplex.polar(m, self.im.ang)
+        c, s = self.im.cos_sin()
         return SymComplex(m * c, m * s)
 
     def sqrt(self):
         """principal square root (branch cut on the negative real axis, as numpy/TF)"""
-        if self.im.t is T.ZERO:
+        if self._is_real():
             x = self.re
             if x.t.op == "const":
                 if x.t.args[0] >= 0:
                     return SymComplex(x.sqrt(), SymReal(T.ZERO))
                 return SymComplex(SymReal(T.ZERO), (-x).sqrt())
             pos = T.ge(x.t, T.ZERO)
+            kt = known_truth(pos)
+            if kt is True:
+                return SymComplex(SymReal(T.sqrt(x.t)), SymReal(T.ZERO))
             a = T.sqrt(T.absv(x.t))
             return SymComplex(SymReal(T.ite(pos, a, T.ZERO)), SymReal(T.ite(pos, T.ZERO, a)))
         r = abs(self)
